@@ -273,6 +273,8 @@ theorem prime_pow_composed {p a k : Nat} (lookup : Nat → Nat → Nat) (hp1 : 1
 
 /-! ### 5. `Auxmath.factorize` does not depend on its fuel once `n < 2^fuel` -/
 
+namespace Fuel
+
 theorem divOut_snd_le (n : Nat) : ∀ p e, (Auxmath.divOut n p e).2 ≤ n := by
   induction n using Nat.strongRecOn with
   | _ n ih =>
@@ -383,6 +385,8 @@ theorem factorize_fuel_64 {fuel n : Nat} (hf : 64 ≤ fuel) (hn : n < 2 ^ 64) :
     rw [factorize_zero, factorize_zero 63]
   · exact factorize_fuel_indep_pos fuel 64 n (by omega)
       (Nat.lt_of_lt_of_le hn (Nat.pow_le_pow_right (by decide) hf)) hn
+
+end Fuel
 
 end CodeTies4Proofs
 end Algobra
